@@ -513,6 +513,55 @@ func runC12(c *core.Ctx, o Options) {
 			}
 		})
 	}
+	// ---- (c‴) membership in a table that has nil entries is tested with the comma-ok form: DefaultFlowFields maps pipeline
+	// messages without extra setters to nil, and such a message still gets its New()/Build() — testing the value for nil drops them
+	{
+		nilEntry := map[*ssa.Global]bool{}
+		for _, fn := range pkgFuncs(gen) {
+			if an.NameOf(fn) != "init" {
+				continue
+			}
+			an.AllInstrs(fn, func(in ssa.Instruction) {
+				mu, ok := in.(*ssa.MapUpdate)
+				if !ok {
+					return
+				}
+				k, isNil := mu.Value.(*ssa.Const)
+				if !isNil || k.Value != nil {
+					return
+				}
+				// the map being filled is stored into a global afterwards: find it through the stores of the init function
+				an.AllInstrs(fn, func(i2 ssa.Instruction) {
+					if st, ok := i2.(*ssa.Store); ok && st.Val == mu.Map {
+						if g, isG := st.Addr.(*ssa.Global); isG {
+							nilEntry[g] = true
+						}
+					}
+				})
+			})
+		}
+		nLook := 0
+		for _, fn := range pkgFuncs(gen) {
+			an.AllInstrs(fn, func(in ssa.Instruction) {
+				lk, ok := in.(*ssa.Lookup)
+				if !ok {
+					return
+				}
+				ld, ok := lk.X.(*ssa.UnOp)
+				if !ok {
+					return
+				}
+				g, ok := ld.X.(*ssa.Global)
+				if !ok || !nilEntry[g] {
+					return
+				}
+				nLook++
+				c.Check(lk.CommaOk, "c", an.NameOf(fn), "lookup in "+g.Name()+" tests presence, not the value", lk.Pos(), "v, ok := "+g.Name()+"[k]",
+					g.Name()+" has entries whose value is nil (pipeline messages without extra setters); "+an.NameOf(fn)+" looks a key up without the comma-ok form, so a present-but-nil entry is taken for absent and the message loses its New()/Build() methods")
+			})
+		}
+		c.Check(len(nilEntry) >= 1 && nLook >= 1, "c", "", "tables with nil entries and their lookups found", token.NoPos, fmt.Sprintf("%d tables, %d lookups", len(nilEntry), nLook), fmt.Sprintf("%d tables with nil entries, %d lookups (DefaultFlowFields and its lookup in makeMessage were confirmed)", len(nilEntry), nLook))
+	}
 	// ---- (e) package name
 	ex := c.Func("generator", "Generator.Execute")
 	if c.Anchor("Execute", ex != nil, "Generator.Execute", posOf(ex)) {
